@@ -19,7 +19,7 @@ ASSUMPTIONS = ['the character before the scheme is not a \\w character (regex \\
                'credentials inside options that a filter itself splits on , ; ! use passwords without these separators',
                'only the string form of log records and facets is inspected; third-party libraries (vidgear/ffmpeg, paho) are replaced by fakes or not started']
 TRUSTED = ['regex determinism argument (OFModel/Redact.lean header): every greedy class is followed by a literal outside the class, so the backtracking search has a single candidate per start position; differential-tested on every run',
-           'fakes: MQ (no sockets), VideoGear (3 synthetic frames), lineage client (captures RunEvents)']
+           'fakes: MQ (no sockets), VideoGear (synthetic frames), WriteGear, lineage client (captures RunEvents)']
 
 UNRES = string.ascii_letters + string.digits + '-._~'
 SUBD = "!$&'()*+,;="
@@ -170,7 +170,7 @@ BASE = {
     'REST': {'sources': 'http://127.0.0.1:8099', 'outputs': MQ_OUT},
     'Webvis': {'sources': MQ_SRC, 'outputs': 'http://127.0.0.1:8098'},
 }
-OWN = {'VideoIn': ('sources', 'source', ['rtsp', 'rtsps', 'http', 'https'], True), 'VideoOut': ('outputs', 'output', ['rtsp'], True),
+OWN = {'VideoIn': ('sources', 'source', ['rtsp', 'rtsp', 'rtsps', 'http', 'https'], True), 'VideoOut': ('outputs', 'output', ['rtsp'], True),
        'ImageIn': ('sources', 'source', ['s3', 'gs'], True),
        'MQTTOut': ('outputs', None, ['mqtt'], False), 'REST': ('sources', None, ['http'], False), 'Webvis': ('outputs', None, ['http'], False),
        'Filter': ('sources', None, ['tcp', 'rtsp'], False), 'Util': ('outputs', None, ['tcp', 'http'], False)}
@@ -225,7 +225,7 @@ def gen_e2e_case(rng, n):
             u = uri('own/invalid', True)
             cfg[OWN[cls][0]] = 'gopher' + u[u.index('://'):]
     return {'kind': 'e2e', 'cls': cls, 'stage': stage, 'as_cfg': rng.random() < 0.4, 'config': enc(cfg, (), []), 'plants': plants,
-            'meta': cls == 'VideoIn' and rng.random() < 0.5}
+            'meta': cls in ('VideoIn', 'VideoOut')}
 
 
 class _Env:
@@ -268,14 +268,21 @@ class _Env:
             framerate = 30.0
 
         class FakeVideoGear:
-            def __init__(self, source=None, **kw): self.stream = FakeStream(); self.n = 0
+            def __init__(self, source=None, **kw): self.stream = FakeStream(); self.stopped = False
             def start(self): return self
-            def stop(self): pass
+            def stop(self): self.stopped = True
             def read(self):
-                self.n += 1
-                return np.zeros((4, 6, 3), np.uint8) if self.n <= 3 else None
+                if self.stopped: return None
+                time.sleep(0.001)
+                return np.zeros((4, 6, 3), np.uint8)
 
-        self.FakeMQ, self.CapLineage, self.FakeVideoGear = FakeMQ, CapLineage, FakeVideoGear
+        class FakeWriteGear:
+            def __init__(self, output=None, **kw): pass
+            def write(self, *a, **kw): pass
+            def close(self): pass
+
+        self.video_out = video_out
+        self.FakeMQ, self.CapLineage, self.FakeVideoGear, self.FakeWriteGear = FakeMQ, CapLineage, FakeVideoGear, FakeWriteGear
         self.buf = io.StringIO()
         self.handler = logging.StreamHandler(self.buf)
         self.handler.setLevel(logging.DEBUG)
@@ -284,8 +291,10 @@ class _Env:
     def __enter__(self):
         import vidgear.gears as vg
         self.saved = (self.fmod.MQ, self.Filter.emitter, vg.VideoGear, self.Filter.init, logging.getLogger().level, logging.root.manager.disable)
+        self.saved_wg = vg.WriteGear
         self.fmod.MQ = self.FakeMQ
         vg.VideoGear = self.FakeVideoGear
+        vg.WriteGear = self.FakeWriteGear
         self.init_args = []
         orig_init, env = self.Filter.init, self
 
@@ -303,6 +312,7 @@ class _Env:
     def __exit__(self, *a):
         import vidgear.gears as vg
         self.fmod.MQ, self.Filter.emitter, vg.VideoGear, self.Filter.init, lvl, dis = self.saved
+        vg.WriteGear = self.saved_wg
         root = logging.getLogger(); root.removeHandler(self.handler); root.setLevel(lvl); logging.disable(dis)
         for h, l in self.muted: h.setLevel(l)
 
@@ -332,10 +342,9 @@ def run_e2e(env, case):
     try:
         if case['stage'] == 'run':
             # the error path of Filter.run(): whatever init()/setup() raise is logged with logger.error(exc)
-            if True:
-                stop = threading.Event(); stop.set()      # a valid configuration leaves the loop at once
-                try: cls.run(cfg, stop_evt=stop, sig_stop=False)
-                except BaseException as e: obs['errors'].append(type(e).__name__)
+            stop = threading.Event(); stop.set()      # a valid configuration leaves the loop at once
+            try: cls.run(cfg, stop_evt=stop, sig_stop=False)
+            except BaseException as e: obs['errors'].append(type(e).__name__)
         else:
             try:
                 f = cls(cfg)
@@ -346,7 +355,11 @@ def run_e2e(env, case):
                 if case['stage'] == 'init':
                     try:
                         f.init(f.config)
-                        if case.get('meta'):
+                        if case.get('meta') and case['cls'] == 'VideoOut':
+                            # the 'video serve: …' line of an RTSP writer (WriteGear replaced by a fake)
+                            for o in f.config.outputs:
+                                if o.output.startswith('rtsp://'): env.video_out.VideoWriter(o.output, fps=15.0).stop()
+                        elif case.get('meta'):
                             f.setup(f.config)
                             try:
                                 get = f.process({})
@@ -431,8 +444,8 @@ def run(ctx):
         c = ctx.replay.get('case')
         cases = [c] if c else []
     else:
-        nm = 60000 if ctx.thorough else (12000 if ctx.escalate else 3000)
-        ne = 5000 if ctx.thorough else (1200 if ctx.escalate else 400)
+        nm = 200000 if ctx.thorough else (30000 if ctx.escalate else 10000)
+        ne = 20000 if ctx.thorough else (3000 if ctx.escalate else 1000)
         cases = [c['case'] if 'case' in c else c for c in ctx.corpus]
         cases += [gen_mask_case(rng) for _ in range(nm)] + [gen_e2e_case(rng, i) for i in range(ne)]
     dist, outside = {}, 0
